@@ -824,6 +824,63 @@ def directed_sample(ctx):
         if got != [1, 2, 3]:
             ctx.failure("latest-lost-wakeup:consumer-removed-during-delivery", "latest with two consumers, one of which destroys itself during "
                         "its first delivery: the other consumer received %r of the arrivals [1, 2, 3] (each delivered while the consumer was free)" % (got,), case)
+    # (3) latest feeding a combining / batching node whose update() returns a NESTED result (zip_latest returns a list of lists of
+    # awaitables): the delivery coroutine must survive it and go on delivering the newest element
+    for below in ("zip_latest", "combine_latest", "zip", "union", "sliding_window", "map"):
+        got, errs = [], []
+
+        async def main(loop, below=below, got=got, errs=errs):
+            src = Stream(asynchronous=True, loop=IOLoop.current())
+            other = Stream(asynchronous=True, loop=IOLoop.current())
+            lat = src.latest()
+            node = {"zip_latest": lambda: lat.zip_latest(other), "combine_latest": lambda: lat.combine_latest(other),
+                    "zip": lambda: lat.zip(other), "union": lambda: lat.union(other),
+                    "sliding_window": lambda: lat.sliding_window(1), "map": lambda: lat.map(lambda x: x)}[below]()
+            gates = []
+
+            async def consumer(x):
+                got.append(x)
+                fut = loop.create_future()
+                gates.append(fut)
+                await fut
+            s1 = node.sink(consumer)
+            s2 = node.sink(consumer)         # two consumers: every delivery yields a list of awaitables
+
+            async def free():
+                while gates:
+                    gates.pop(0).set_result(None)
+                    await vloop.settle(loop)
+            if below in ("zip_latest", "combine_latest"):
+                other.emit("c")
+                await vloop.settle(loop)
+                await free()
+            elif below == "zip":
+                for _ in range(4):
+                    other.emit("c")
+                await vloop.settle(loop)
+            for burst in ([1], [2, 3], [4]):          # idle arrival; two arrivals while busy; idle arrival again
+                for x in burst:
+                    src.emit(x)
+                    await vloop.settle(loop)
+                await free()
+            del s1, s2
+        try:
+            vloop.run(main)
+        except Exception as e:      # noqa: BLE001
+            errs.append(repr(e))
+        case = {"directed": "latest-feeds-nested-result", "below": below}
+        ctx.case(case, nontrivial=True)
+        ctx.count("directed:latest-feeds:" + below)
+
+        def first(v):
+            while isinstance(v, (tuple, list)):
+                v = v[0]
+            return v
+        seen = [first(v) for v in got if first(v) != "c"]
+        lasts = [x for i, x in enumerate(seen) if i == 0 or seen[i - 1] != x]     # (two consumers: each value twice)
+        if errs or not lasts or lasts[-1] != 4 or 1 not in lasts or 3 not in lasts or lasts != sorted(lasts):
+            ctx.failure("latest-lost-wakeup:nested-result-below", "source -> latest -> %s -> two awaiting consumers; arrivals 1 (idle), 2 and 3 (while busy), 4 (idle): "
+                        "the consumers received %r (expected 1, then 3 - or 2 and 3 -, then 4)%s" % (below, got, "; raised " + errs[0] if errs else ""), case)
     # (2)
     src = Stream(asynchronous=False)
     lat = src.latest()
